@@ -391,7 +391,7 @@ def counters(ctx, rule, need_clear=True, check_len_inc=True):
         for bi, si, st in b.iter_stmts():
             if st["k"] != "assign" or not st["place"]["p"] or b.blocks[bi]["cleanup"]:
                 continue
-            pth = U.field_path(sy.place(st["place"]))
+            pth = U.field_path(sy.dest(st["place"]))
             if pth is None or not pth[2] or pth[2][-1] != cfield:
                 continue
             v = S.strip_refs(sy.rvalue(st["rv"]))
@@ -423,7 +423,7 @@ def counters(ctx, rule, need_clear=True, check_len_inc=True):
         for bi, si, st in m.iter_stmts():
             if st["k"] != "assign" or m.blocks[bi]["cleanup"] or not st["place"]["p"]:
                 continue
-            pl = msy.place(st["place"])
+            pl = msy.dest(st["place"])
             pth = U.field_path(pl)
             if pth is not None and pth[2] and pth[2][-1] == lenfield and pth[0] == "arg" and pth[1] == 1:
                 incs.append((bi, st, msy.rvalue(st["rv"])))
@@ -481,7 +481,7 @@ def only_store_add_feeds_index(ctx, rule):
             ix_assign = None
             for bj, si, st in b.iter_stmts():
                 if st["k"] == "assign" and st["place"]["p"] and not b.blocks[bj]["cleanup"]:
-                    pl = sy.place(st["place"])
+                    pl = sy.dest(st["place"])
                     if pl[0] == "field" and str(pl[2]) == "ix" and S.strip_refs(pl[1]) == rec_arg:
                         ix_assign = (bj, st, sy.rvalue(st["rv"]))
             # every record that is stored is also indexed: the call lies on every path of the adder
@@ -513,7 +513,7 @@ def only_store_add_feeds_index(ctx, rule):
             incs = []
             for bk, si, st2 in b.iter_stmts():
                 if st2["k"] == "assign" and not b.blocks[bk]["cleanup"] and st2["place"]["p"]:
-                    pth = U.field_path(sy.place(st2["place"]))
+                    pth = U.field_path(sy.dest(st2["place"]))
                     if pth and pth[2] == ["next_ix"]:
                         incs.append((bk, sy.rvalue(st2["rv"])))
             good = (len(pushes) == 1 and cfg.every_path_passes(0, [pushes[0][0]]) and len(incs) == 1
@@ -698,7 +698,7 @@ def every_posting_counted(ctx, rule):
         rv = st["rv"]
         e = sy.rvalue(rv)
         if e[0] == "binop" and e[1] in ("Add", "AddWithOverflow") and S.const_value(e[3]) == 1:
-            dest = S.strip_refs(sy.place(st["place"]))
+            dest = S.strip_refs(sy.dest(st["place"]))
             if any(isinstance(x, tuple) and x and x[0] == "call" and x[1].endswith(("get_unchecked_mut", "IndexMut::index_mut", "get_mut"))
                    for x in S.walk(dest)):
                 incs.append(bi)
